@@ -29,28 +29,48 @@ Theorem C14_murmur_range :
 Proof. exact murmur_range_proof. Qed.
 Print Assumptions C14_murmur_range.
 
-(* hashing a selection of fields is the left fold of the hash with the previous value as seed *)
+(* hashing a selection of fields: the fold the model performs -- it interprets the step extracted from fields.hh
+   HashCallback::operator() (Gen/Src_murmur.v hashcallback_step_shape) -- equals the independent specification
+   fold_spec: the value after p1 .. pn is 64A(pn, 64A(p(n-1), ... 64A(p1, seed))).  A step that hashed something
+   else, used another length, or did not chain the previous value would break this proof. *)
 Theorem C14_fold_is_left_fold :
-  forall seed ps p, hash_fold seed [] = seed /\ hash_fold seed (ps ++ [p]) = murmur64a p (hash_fold seed ps).
+  forall seed ps p,
+  hash_fold seed ps = fold_spec seed ps /\
+  fold_spec seed [] = seed /\ fold_spec seed (ps ++ [p]) = murmur64a p (fold_spec seed ps).
 Proof. exact fold_is_left_fold_proof. Qed.
 Print Assumptions C14_fold_is_left_fold.
 
-(* shard assignment is a function of the key pieces and the shard count only: the seeded fold modulo n *)
+(* shard assignment: shard_main.cc's default-constructed HashCallback (seed from fields.hh), the specified fold,
+   modulo the shard count -- a function of the key pieces and the count only *)
 Theorem C14_shard_index :
   forall pieces n, 0 < n ->
-  shard_index pieces n = hash_fold shard_seed pieces mod n /\ 0 <= shard_index pieces n < n.
+  shard_index pieces n = fold_spec 47849374332489 pieces mod n /\ 0 <= shard_index pieces n < n.
 Proof. exact shard_index_proof. Qed.
 Print Assumptions C14_shard_index.
 
-(* train_case writes and apply_case looks up the same key: 64A(lowered target, 64A(source, 0)) *)
+(* train_case writes and apply_case looks up the same key.  case_key_train / case_key_apply interpret the key
+   shapes the translator extracts from train_case_main.cc and from apply_case_main.cc INDEPENDENTLY (which string
+   is hashed, which string's size() is the length, seed nesting); the proof needs the two generated shapes to be
+   equal and to be 64A(lowered, its own length, 64A(source, its own length, 0)) -- e.g. passing target.size() in
+   one tool breaks it. *)
 Theorem C14_case_keys_agree :
-  forall lowered source,
-  case_key_train lowered source = case_key_apply lowered source /\
+  forall lowered source target,
+  case_key_train lowered source target = case_key_apply lowered source /\
   case_key_apply lowered source = murmur64a lowered (murmur64a source 0).
 Proof. exact case_keys_agree_proof. Qed.
 Print Assumptions C14_case_keys_agree.
 
-(* the seeds in the current sources (regenerated): shard differs from the dedupers, the two sides of
+(* the whole-line keys of dedupe, subtract_lines (both sides) and commoncrawl_dedupe, and the field keys of dedupe and
+   cache, each interpreted from the shape / seed extracted from its own source *)
+Theorem C14_tool_keys :
+  forall line,
+  dedupe_line_key line = murmur64a line 1 /\ subtract_insert_key line = murmur64a line 1 /\
+  subtract_lookup_key line = murmur64a line 1 /\ commoncrawl_dedupe_key line = murmur64a line 1 /\
+  (forall pieces, dedupe_field_key pieces = fold_spec 1 pieces) /\ (forall pieces, cache_key pieces = fold_spec 0 pieces).
+Proof. exact line_keys_proof. Qed.
+Print Assumptions C14_tool_keys.
+
+(* regression pins (not counted as proofs of compatibility): the seeds in the current sources (regenerated): shard differs from the dedupers, the two sides of
    subtract_lines agree, the native hash is 64A on 8-byte pointers *)
 Theorem C14_seeds :
   shard_seed = 47849374332489 /\ dedupe_line_seed = 1 /\ dedupe_field_seed = 1 /\ cache_seed = 0 /\
@@ -97,7 +117,7 @@ Print Assumptions C14_murmur64b_range.
 Theorem C14_native_dispatch :
   forall bs seed,
   murmur_native_for 8 bs seed = Some (murmur64a bs seed) /\ murmur_native_for 4 bs seed = murmur64b bs seed /\
-  murmur_native bs seed = murmur64a bs seed.
+  (platform_pointer_size = 8 -> murmur_native bs seed = murmur64a bs seed).
 Proof. exact native_dispatch_proof. Qed.
 Print Assumptions C14_native_dispatch.
 
@@ -113,7 +133,8 @@ Proof. vm_compute. repeat split. Qed.
 Example C14_nonvacuous_fold :
   hash_fold shard_seed [[97; 98]; [99]] = murmur64a [99] (murmur64a [97; 98] 47849374332489) /\
   shard_index [[97; 98]; [99]] 5 = 2 /\
-  case_key_train [104] [72] = murmur64a [104] (murmur64a [72] 0).
+  case_key_train [104] [72] [72] = murmur64a [104] (murmur64a [72] 0) /\
+  fold_spec 7 [[1]; [2; 3]] = murmur64a [2; 3] (murmur64a [1] 7) /\ hash_fold 7 [[1]; []; [2; 3]] = murmur64a [2; 3] (murmur64a [] (murmur64a [1] 7)).
 Proof. vm_compute. repeat split. Qed.
 
 Example C14_nonvacuous_order :
@@ -126,3 +147,9 @@ Example C14_nonvacuous_64b :
   murmur64b [] 0 = Some 0 /\ murmur64b [104; 101; 108; 108; 111; 32; 119; 111; 114; 108; 100; 33] 1 <> None /\
   murmur64b_mem [97; 98; 99; 100; 101; 255; 255] 5 7 = murmur64b [97; 98; 99; 100; 101] 7.
 Proof. vm_compute. repeat split. discriminate. Qed.
+
+Example C14_nonvacuous_tool_keys :
+  dedupe_line_key [97; 9; 98] = 17006383103647621079 /\ dedupe_line_key [97; 9; 98] = murmur64a [97; 9; 98] 1 /\
+  cache_key [[97]; []] = murmur64a [] (murmur64a [97] 0) /\
+  case_key_train [105; 204; 135] [115] [196; 176] = murmur64a [105; 204; 135] (murmur64a [115] 0).
+Proof. vm_compute. repeat split. Qed.
